@@ -345,7 +345,10 @@ class HTTP2Connection(ConnectionInterface):
         return event
 
     def _receive_events(
-        self, request: Request, stream_id: int | None = None
+        self,
+        request: Request,
+        stream_id: int | None = None,
+        flow_stream_id: int | None = None,
     ) -> None:
         """
         Read some data from the network until we see one or more events
@@ -358,6 +361,15 @@ class HTTP2Connection(ConnectionInterface):
                     self._request_count -= 1
                     raise ConnectionNotAvailable()
                 raise RemoteProtocolError(self._connection_terminated)
+
+            # When waiting for flow control credit, the window update may have
+            # been read by another request while we waited for the read lock.
+            # Blocking on the network now would stall the upload.
+            if flow_stream_id is not None:
+                local_flow = self._h2_state.local_flow_control_window(flow_stream_id)
+                max_frame_size = self._h2_state.max_outbound_frame_size
+                if min(local_flow, max_frame_size) > 0:
+                    return
 
             # This conditional is a bit icky. We don't want to block reading if we've
             # actually got an event to return for a given stream. We need to do that
@@ -516,7 +528,7 @@ class HTTP2Connection(ConnectionInterface):
         max_frame_size: int = self._h2_state.max_outbound_frame_size
         flow = min(local_flow, max_frame_size)
         while flow <= 0:
-            self._receive_events(request)
+            self._receive_events(request, flow_stream_id=stream_id)
             local_flow = self._h2_state.local_flow_control_window(stream_id)
             max_frame_size = self._h2_state.max_outbound_frame_size
             flow = min(local_flow, max_frame_size)
